@@ -84,12 +84,17 @@ def _match(pat, node, env):
 
 
 def match(pattern, node, env=None):
-    pat = _parse(pattern) if isinstance(pattern, str) else pattern
+    if isinstance(pattern, (list, tuple)):
+        pat = [_parse(p) if isinstance(p, str) else p for p in pattern]
+    else:
+        pat = _parse(pattern) if isinstance(pattern, str) else pattern
     e = dict(env or {})
     if isinstance(pat, list):
         if not isinstance(node, list) or len(pat) != len(node):
             return None
         for a, b in zip(pat, node):
+            if isinstance(b, ast.Expr) and isinstance(a, ast.expr):
+                b = b.value
             if not _match(a, b, e):
                 return None
         return e
